@@ -424,9 +424,19 @@ C05_IterAccept(c, trk, call, o) ==
          Controlled(o) /\ (~ElfFits(ElfParams(c.mem, ElfIt(c))) => o.k # "some")
     [] call.op = "dbg" /\ call.what \in {"efi_mmap", "elf"} -> Controlled(o)
     [] OTHER -> TRUE
+\* Debug formatting of a conformant tag (a tag its typed getter accepts and whose content-level rules hold) succeeds:
+\* a controlled panic is what malformed input may end in, not well-formed input
+DbgConformant(c, name) ==
+  LET g == EffGet(c.mem, name) IN
+  \/ g.k = "absent"
+  \/ /\ g.k = "must" /\ SpecConformant(c.mem, name, g.it)
+     /\ (name = "vbe" => Bytes(c.mem, g.it.at + 555, 1)[1] < 8)              \* (the enum-typed byte: known finding otherwise)
+     /\ (name = "efi_mmap" => EfiValid(EfiParams(c.mem, g.it)))
+     /\ (name = "elf" => LET p == ElfParams(c.mem, g.it) IN ElfFits(p) /\ (p.n = 0 \/ p.es \in {40, 64}))
 \* C04: first-match selection and exact decoding for conformant tags (and "nothing" when absent)
 C04_Accept(c, trk, call, o) ==
-  IF call.op = "elf_sections_deprecated" /\ trk.loaded = "bi" THEN
+  IF call.op = "dbg" /\ trk.loaded = "bi" /\ call.what \in InfoKindNames THEN DbgConformant(c, call.what) => o.k = "unit"
+  ELSE IF call.op = "elf_sections_deprecated" /\ trk.loaded = "bi" THEN
      (EffGet(c.mem, "elf").k = "absent" \/ ElfDeprValid(c)) => AcceptElfDeprecated(c, trk, o)
   \* module_tags(): every module tag of the walk, in order (where the walk itself is sound and the module tags conformant)
   ELSE IF (call.op = "module_tags" \/ (call.op \in {"next", "count"} /\ HasIt(trk, call.it) /\ ItOf(trk, call.it).kind = "module_tags"))
@@ -523,8 +533,22 @@ C10_Accept(c, trk, call, o) ==
          o.k = "ok" /\ Len(o.v.bytes) >= 16 =>
            ChecksumOk(Bytes(o.v.bytes, 0, 4), Bytes(o.v.bytes, 4, 4), Bytes(o.v.bytes, 8, 4), Bytes(o.v.bytes, 12, 4))
     [] OTHER -> TRUE
+\* a header tag of a known type has its kind's size (information requests: 8 + 4 n)
+HItemConformant(it) ==
+  \A n \in HeaderKindNames :
+     HeaderKind(n).id = LE2(SubSeq(it.typ, 1, 2)) =>
+       IF n = "info_req" THEN it.size >= 8 /\ (it.size - 8) % 4 = 0 ELSE it.size = HeaderKind(n).wire
+\* Debug of a conformant tag succeeds, and so does Debug of a header made of such tags (a controlled panic is what
+\* malformed input may end in, not well-formed input)
+HDbgOk(c, trk, call, o) ==
+  IF call.op # "hdbg" \/ trk.loaded # "hdr" THEN TRUE
+  ELSE IF call.what \in HeaderKindNames THEN HGetSpec(c.mem, call.what).k \in {"absent", "must"} => o.k = "unit"
+  ELSE IF call.what = "hdr" THEN
+       LET w == HWalk(c.mem) IN (w.fin = "none" /\ \A i \in 1..Len(w.items) : HItemConformant(w.items[i])) => o.k = "unit"
+  ELSE TRUE
 C11_Accept(c, trk, call, o) ==
-  CASE call.op = "hacc" -> AcceptHAcc(c, trk, call, o)
+  CASE call.op = "hdbg" -> HDbgOk(c, trk, call, o)
+    [] call.op = "hacc" -> AcceptHAcc(c, trk, call, o)
     [] call.op = "htags" -> IF trk.loaded = "hdr" THEN o.k = "unit" ELSE o.k = "skipped"
     [] call.op = "next" /\ HasIt(trk, call.it) /\ ItOf(trk, call.it).kind = "htags" ->
          LET s == ItOf(trk, call.it) IN AcceptHNext(HWalk(c.mem), s.k, s.dead, o)
@@ -552,6 +576,7 @@ C09_Accept(c, trk, call, o) ==
   \* a declared length below 16 is refused as too short whatever lies behind it (nothing behind it is looked at)
   ELSE IF call.op = "hload" /\ ~Has(c, "memx") /\ ~IsNull(call) /\ Len(c.mem) >= 12 /\ U32At(c.mem, 8) < 16
   THEN Controlled(o) /\ AcceptHLoad(FALSE, c.mem, o)
+  ELSE IF ~HDbgOk(c, trk, call, o) THEN FALSE
   ELSE IF call.op \in HeaderOps \/ (call.op \in {"next", "clone", "nth", "count", "last", "size_hint"} /\ HasIt(trk, call.it) /\ ItOf(trk, call.it).kind = "htags")
   THEN /\ Controlled(o)
        /\ LET L == U32At(c.mem, 8) IN \A e \in Exts(o) : Inside(e, 16, L)
